@@ -31,11 +31,7 @@ func queryStream() ([]Tok, *ast.Source) {
 	verifrt.SetOpt("unwind", len(pre)+k+3)
 	verifrt.SetOpt("depth", 8*(len(pre)+k)+40)
 	verifrt.SetOpt("merge", verifrt.Param("merge", 0))
-	toks := append(append([]Tok(nil), pre...), SymbolicStream(k, Alphabet(QueryNames, verifrt.Param("invalid", 0) != 0))...)
-	if f := verifrt.Param("first", -1); f >= 0 && k > 0 {
-		// case split on the first symbolic token
-		verifrt.Assume(verifrt.Int("t0", 0, 1000) == f)
-	}
+	toks := append(append([]Tok(nil), pre...), SymbolicStream(k, Alphabet(QueryNames, verifrt.Param("invalid", 0) != 0), verifrt.Param("first", -1))...)
 	return toks, Install(toks)
 }
 
@@ -98,10 +94,12 @@ func QueryTotal() {
 func wellFormedSyntaxError(err error, k, limit int) {
 	gerr, isG := err.(*gqlerror.Error)
 	if !isG {
+		verifrt.Cover("C20.token-limit-error")
 		verifrt.Assert(limit > 0, "C20.unlocated-error-only-for-limit")
 		verifrt.Assert(len(err.Error()) > 0, "C20.message-nonempty")
 		return
 	}
+	verifrt.Cover("C20.syntax-error")
 	verifrt.Assert(len(gerr.Message) > 0, "C20.message-nonempty")
 	verifrt.Assert(len(gerr.Locations) == 1, "C20.one-location")
 	if len(gerr.Locations) != 1 {
